@@ -485,7 +485,13 @@ func tokenTypestate(c *kit.Ctx, est *ssa.Function, errClosed, override *ssa.Glob
 		sort.Strings(xs)
 		return strings.Join(xs, ",")
 	}
-	in := map[*ssa.BasicBlock]state{}
+	// a node is a block, or a block as entered over edges that decide its final branch (jump threading: the
+	// `if !ok` / `if err != nil` after an expanded helper is decided by the return it is reached from; the
+	// paths that meet in such a block do not really meet)
+	type node struct {
+		b   *ssa.BasicBlock
+		dec int8 // 0: undecided, 1: branch known true, 2: known false
+	}
 	var regParam ssa.Value
 	for _, pa := range est.Params {
 		if pa.Type().String() == kit.Module+"/hrpc.RegionInfo" {
@@ -496,8 +502,10 @@ func tokenTypestate(c *kit.Ctx, est *ssa.Function, errClosed, override *ssa.Glob
 		c.Unk(est, "signature", est.Pos(), "establishRegion no longer takes the region as a parameter")
 		return
 	}
-	exemptReturn := func(b *ssa.BasicBlock) string {
-		for _, f := range kit.FactsAt(b) {
+	// exemptWhy names the condition under which an exit may leave a region owned: the client was closed (nobody
+	// waits any more) or the test hook replaced the establisher
+	exemptWhy := func(facts []kit.Fact) string {
+		for _, f := range facts {
 			cmp, ok := kit.CanonCmp(f.Cond, f.Pol)
 			if !ok {
 				continue
@@ -516,17 +524,56 @@ func tokenTypestate(c *kit.Ctx, est *ssa.Function, errClosed, override *ssa.Glob
 		}
 		return ""
 	}
+	// The analysis is disjunctive: a node keeps every distinct owned set it can be reached with (the sets are
+	// subsets of a handful of values), so nothing is lost where paths meet. why is the exemption condition
+	// that was passed on the way, if any.
+	type item struct {
+		nd  node
+		st  state
+		why string
+	}
 	entry := est.Blocks[0]
-	in[entry] = state{regParam: true}
-	work := []*ssa.BasicBlock{entry}
-	reported := map[string]bool{}
-	nObl := 0
-	visited := map[*ssa.BasicBlock]bool{}
-	for len(work) > 0 {
-		b := work[0]
+	seenSt := map[node]map[string]bool{}
+	push := func(work []item, it item) []item {
+		k := key(it.st) + "|" + it.why
+		if seenSt[it.nd] == nil {
+			seenSt[it.nd] = map[string]bool{}
+		}
+		if seenSt[it.nd][k] {
+			return work
+		}
+		seenSt[it.nd][k] = true
+		return append(work, it)
+	}
+	work := push(nil, item{node{entry, 0}, state{regParam: true}, ""})
+	type verdict struct {
+		pos       token.Pos
+		what      string
+		good, bad []string
+	}
+	verdicts := map[string]*verdict{}
+	var order []string
+	note := func(k string, pos token.Pos, what string, ok bool, text string) {
+		v := verdicts[k]
+		if v == nil {
+			v = &verdict{pos: pos, what: what}
+			verdicts[k] = v
+			order = append(order, k)
+		}
+		if ok {
+			v.good = append(v.good, text)
+		} else {
+			v.bad = append(v.bad, text)
+		}
+	}
+	steps := 0
+	for len(work) > 0 && steps < 20000 {
+		steps++
+		it := work[0]
 		work = work[1:]
+		nd, b := it.nd, it.nd.b
 		cur := state{}
-		for v := range in[b] {
+		for v := range it.st {
 			cur[v] = true
 		}
 		for _, ins := range b.Instrs {
@@ -542,36 +589,35 @@ func tokenTypestate(c *kit.Ctx, est *ssa.Function, errClosed, override *ssa.Glob
 				if n == maName {
 					v := kit.Strip(x.Call.Value)
 					k := "release|" + fmt.Sprint(x.Pos())
-					if !visited[b] || !reported[k] {
-						if cur[v] {
-							if !reported[k] {
-								c.OK(est, "release "+kit.Path(v), x.Pos(), "releases a region this establisher owns (owned set "+key(cur)+")")
-								nObl++
-							}
-						} else if !reported[k] {
-							c.Bad(est, "release "+kit.Path(v), x.Pos(), "MarkAvailable on a region this establisher does not own on this path (owned: {"+key(cur)+"}): the availability channel is nil or belongs to another establisher - close of nil channel kills the process, or waiters are released early", "")
-						}
-						reported[k] = true
+					if cur[v] {
+						note(k, x.Pos(), "release "+kit.Path(v), true, "releases a region this establisher owns (owned set "+key(cur)+")")
+					} else {
+						note(k, x.Pos(), "release "+kit.Path(v), false, "MarkAvailable on a region this establisher does not own on this path (owned: {"+key(cur)+"}): the availability channel is nil or belongs to another establisher - close of nil channel kills the process, or waiters are released early")
 					}
 					delete(cur, v)
 				}
 			case *ssa.Return:
 				k := "return|" + fmt.Sprint(posOf(x)) + "|" + fmt.Sprint(b.Index)
-				if reported[k] {
-					break
+				why := it.why
+				if why == "" {
+					why = exemptWhy(kit.FactsAt(b))
 				}
-				reported[k] = true
-				if why := exemptReturn(b); why != "" {
-					c.OK(est, "exit", posOf(x), "exempt exit: "+why)
+				if why != "" {
+					note(k, posOf(x), "exit", true, "exempt exit: "+why)
 				} else if len(cur) == 0 {
-					c.OK(est, "exit", posOf(x), "all owned regions were released before this return")
+					note(k, posOf(x), "exit", true, "all owned regions were released before this return")
 				} else {
-					c.Bad(est, "exit", posOf(x), "the establisher returns while still owning {"+key(cur)+"}: that region stays unavailable and its waiters are never released", "")
+					note(k, posOf(x), "exit", false, "the establisher returns while still owning {"+key(cur)+"}: that region stays unavailable and its waiters are never released")
 				}
 			}
 		}
-		visited[b] = true
-		for _, s := range b.Succs {
+		succs := b.Succs
+		if nd.dec == 1 {
+			succs = b.Succs[:1]
+		} else if nd.dec == 2 {
+			succs = b.Succs[1:2]
+		}
+		for _, s := range succs {
 			// rename through the phis of s
 			nxt := state{}
 			for v := range cur {
@@ -607,19 +653,34 @@ func tokenTypestate(c *kit.Ctx, est *ssa.Function, errClosed, override *ssa.Glob
 					}
 				}
 			}
-			old, seen := in[s]
-			if !seen {
-				in[s] = nxt
-				work = append(work, s)
-				continue
-			}
-			if key(old) != key(nxt) {
-				k := "merge|" + fmt.Sprint(s.Index)
-				if !reported[k] {
-					reported[k] = true
-					c.Bad(est, "merge", firstPos(s), "ownership differs between the paths that meet here ({"+key(old)+"} vs {"+key(nxt)+"}): on one of them a region is released twice or never", "")
+			sn := node{s, 0}
+			if v, decided := kit.DecideOnEntry(s, b); decided && len(s.Succs) == 2 {
+				sn.dec = 2
+				if v {
+					sn.dec = 1
 				}
 			}
+			why := it.why
+			if s.Dominates(b) {
+				why = "" // next round of the loop: the condition was about the last one
+			}
+			if why == "" && len(b.Succs) == 2 {
+				if iff, ok := b.Instrs[len(b.Instrs)-1].(*ssa.If); ok && b.Succs[0] != b.Succs[1] {
+					why = exemptWhy([]kit.Fact{{Cond: iff.Cond, Pol: s == b.Succs[0], If: iff}})
+				}
+			}
+			work = push(work, item{sn, nxt, why})
+		}
+	}
+	if steps >= 20000 {
+		c.Unk(est, "ownership", est.Pos(), "the ownership analysis of establishRegion did not converge")
+	}
+	for _, k := range order {
+		v := verdicts[k]
+		if len(v.bad) > 0 {
+			c.Bad(est, v.what, v.pos, v.bad[0], "")
+		} else {
+			c.OK(est, v.what, v.pos, v.good[0])
 		}
 	}
 	_ = types.Typ
